@@ -4,7 +4,7 @@
 From Coq Require Import NArith ZArith List Bool.
 Import ListNotations.
 Require Import UV.C07.Model UV.C07.Check UV.C07.Proofs UV.C07.Replay UV.C07.RecordReplay.
-Require UV.C07.RecordProof UV.C07.RecordProofCyg UV.C07.Range UV.C07.Multi UV.C07.MultiReplay UV.C07.Switch.
+Require UV.C07.RecordProof UV.C07.RecordProofCyg UV.C07.RecordProofB UV.C07.Range UV.C07.Multi UV.C07.MultiReplay UV.C07.Switch.
 Local Open Scope Z_scope.
 
 (* get_task_ustack's look-ahead list (time filter -t / time=, caller filter -C, `trace`) hands the
@@ -189,7 +189,24 @@ Theorem C07_record_equals_replay_cygprof : forall c f,
 Proof. exact RecordProofCyg.record_equals_replay_cyg. Qed.
 Print Assumptions C07_record_equals_replay_cygprof.
 
-(* the other shared options (-t, time=, -C, trace) and the cygprof shape: exhaustive agreement on a bounded
+(* the caller filter -C, the `trace` trigger and -t when no call is hidden by -F/-N/-D (-pg shape): libmcount
+   writes exactly the recording of the forest pruned by replay's look-ahead rule, so recording with the
+   options and replaying the full recording with them show the same events (depths and times included). *)
+Theorem C07_record_writes_pruned_forest : forall c f,
+  RecordProofB.classB c -> RecordProof.wf_forest c f -> (RecordProof.fheight f <= 1024)%nat ->
+  Z.of_nat (RecordProof.fheight f) <= gdepth c ->
+  record (to_mcfg c MC.PG) f = flats 0 (flat_map (tprune c (threshold c)) f).
+Proof. exact RecordProofB.record_is_pruned. Qed.
+Print Assumptions C07_record_writes_pruned_forest.
+
+Theorem C07_record_equals_replay_caller_trace : forall c f,
+  RecordProofB.classB c -> plt_free_all c -> no_range c = true -> RecordProof.wf_forest c f ->
+  (RecordProof.fheight f <= 1024)%nat -> Z.of_nat (RecordProof.fheight f) <= gdepth c ->
+  rec_then_plain c MC.PG f = plain_then_opt c f.
+Proof. exact RecordProofB.record_equals_replay_caller. Qed.
+Print Assumptions C07_record_equals_replay_caller_trace.
+
+(* time= triggers (and -C / trace on the cygprof shape): exhaustive agreement on a bounded
    domain inside the class rr_class_of
    (no call runs exactly a threshold or zero time, no depth= / trace_on / trace_off, time= never lowers the
    threshold, -C / trace / time= only when nothing is hidden by -F/-N/-D): 21060 + 8900 compared pairs,
